@@ -322,10 +322,13 @@ func runC08(job common.Job, em *emitter) {
 					Part  string    `json:"part"`
 					Case  c08Case   `json:"case"`
 					Chain []c08Case `json:"chain"`
+					Seq   []c08Case `json:"sequence"`
 				} `json:"replay"`
 			}
 			readReplay(job.Replay, &rc)
-			if len(rc.Replay.Chain) > 0 {
+			if len(rc.Replay.Seq) > 0 {
+				c08Seq(rc.Replay.Seq, &res, sigs, addViol)
+			} else if len(rc.Replay.Chain) > 0 {
 				c08Chain(rc.Replay.Chain, &res, sigs, addViol)
 			} else {
 				st := c08Styles[rc.Replay.Case.Style]
@@ -444,6 +447,39 @@ func runC08(job common.Job, em *emitter) {
 				}
 				c08Chain(chain, &res, sigs, addViol)
 			}
+			// one filler instance drawing a sequence of frames between which one of
+			// total / current / width / refill changes while the others stay (a bar of
+			// unknown total whose total is set later, a resized terminal, a retry that
+			// sets a refill mark): every frame is held to the exact expectation
+			for k := 0; k < 120; k++ {
+				si := rng.Intn(len(c08Styles))
+				st := c08Styles[si]
+				t := 1 + rng.I64n(int64(rng.Pick(100, 100000, 1<<40)))
+				cur := rng.I64n(t + 1)
+				w := rng.Pick(rng.Range(3, 12), rng.Range(3, 120), 80, 100)
+				var refill int64
+				var seq []c08Case
+				for i := 0; i < 24; i++ {
+					switch rng.Intn(4) {
+					case 0:
+						t = cur + rng.I64n(3*t+1) // total changes, current does not
+						if t <= 0 {
+							t = 1
+						}
+					case 1:
+						cur = rng.I64n(t + 1)
+					case 2:
+						w = rng.Pick(rng.Range(3, 12), rng.Range(3, 120), 80, 100)
+					default:
+						refill = rng.I64n(cur + 1)
+					}
+					if refill > cur {
+						refill = cur
+					}
+					seq = append(seq, c08Case{Total: t, Current: cur, Refill: refill, Avail: w, Style: si, StyleName: st.Name, Completed: cur == t})
+				}
+				c08Seq(seq, &res, sigs, addViol)
+			}
 		}
 		res.Sigs = sigs.list()
 		if len(samples) > 0 {
@@ -488,6 +524,36 @@ func c08Chain(chain []c08Case, res *common.Result, sigs sigset, addViol func(msg
 			return
 		}
 		prev, prevCur = filled, c.Current
+	}
+}
+
+// c08Seq draws the cases one after the other with ONE filler instance (as a bar
+// does over its lifetime) and holds every frame to the exact expectation.
+func c08Seq(seq []c08Case, res *common.Result, sigs sigset, addViol func(msg, key string, c interface{})) {
+	if len(seq) == 0 {
+		return
+	}
+	st := c08Styles[seq[0].Style]
+	filler := st.build()
+	for i, c := range seq {
+		res.Evals++
+		inner, msg := 0, ""
+		func() {
+			defer func() {
+				if rr := recover(); rr != nil {
+					msg = fmt.Sprintf("panic in Fill: %v", rr)
+				}
+			}()
+			_, inner, msg = checkFill(filler, st, c)
+		}()
+		if inner > 0 {
+			res.NonTrivial++
+			sigs.add("seq", i, c.Total, c.Current, c.Refill, c.Avail, c.Style)
+		}
+		if msg != "" {
+			addViol(fmt.Sprintf("frame %d of a sequence drawn by one filler: %s", i, msg), "seq:"+c08Key(c, msg), map[string]interface{}{"sequence": seq[:i+1]})
+			return
+		}
 	}
 }
 
